@@ -171,6 +171,11 @@ func propC19(c *ctx) error {
 			}
 			files[p] = sb.String()
 			defines[p] = defs
+			if r.p(8) {
+				// a file of length zero is a file like any other: registered under its name when it matches (an empty template)
+				files[p], defines[p] = "", nil
+				res.count("zero_length_files")
+			}
 		}
 		base := fstest.MapFS{}
 		pre := ""
